@@ -270,5 +270,5 @@ FoldSiteOps(t) ==       \* operators that wrongly receive a folded literal as (p
        \cup FoldSiteOps(t.e)
 FoldKey(t) == LET o == FoldSiteOps(t) IN
   "C31|neg-literal-folded|" \o (IF "%" \in o THEN "%" ELSE "") \o (IF "^" \in o THEN "^" ELSE "") \o
-  (IF "%" \notin o /\ "^" \notin o THEN "other" ELSE "")
+  (IF "%" \notin o /\ "^" \notin o THEN "*/" ELSE "")
 =============================================================================
